@@ -89,3 +89,60 @@ def filt(depth, marks=True):
 
 def document(depth, marks=True):
     return A.concat(rx(WS), filt(depth, marks), rx(WS))
+
+
+# ---------------------------------------------------------------------------------------------------------------------
+# Upper bound of what may be accepted as a literal: the seven kinds above plus the ZINC scalar kinds and collections hszinc
+# documents as an extension, with blanks tolerated between the tokens of a composite literal.  Deliberately generous about
+# blanks and digits (the leniencies listed in zinc_surface.LENIENT); what it does NOT contain is any text that is not a
+# spelling of a value at all - the purpose of the bound ("a token that is not a valid filter is rejected").
+def lenient_kinds():
+    k = dict(ZS.kinds(True, lenient=True))
+    k.update(ZS.kinds(False, lenient=True))            # Bin(...) of 2.0 as well
+    k['bool'] = r'(true|false)'
+    d = r'[0-9_]+'          # digit runs may hold '_' anywhere; float() rejects the malformed ones afterwards (ValueError)
+    dec = r'-?' + d + r'(\.' + d + r')?([eE][+-]?' + d + r')?'
+    k['number'] = r'(' + dec + r'|INF|-INF|NaN|Nan)'
+    k['quantity'] = dec + ZS.UNIT
+    W = WS
+    k['ref'] = r'@' + W + r'[a-zA-Z0-9_:\-.~\d]*(' + W + ZS.STR + r')?'
+    k['datetime'] = ZS.U_DATE + r'[Tt]' + ZS.U_TIME + r'([Zz]|[+-]\d{2}:\d{2})?(' + W + r'((UTC|GMT)([+-]\d+|0)?|[A-Z][a-zA-Z0-9_\-]*))?'
+    cdeg = r'-?(' + ZS.DIGITS + r')?(\.' + ZS.DIGITS + r')?'
+    k['coord'] = r'C\(' + W + cdeg + W + r',' + W + cdeg + W + r'\)'
+    k['xstr'] = r'[a-zA-Z0-9_]+' + W + r'\(' + W + ZS.STR + W + r'\)'
+    return k
+
+
+def lenient_value(depth):
+    sc = A.union(*[rx(p) for p in lenient_kinds().values()])
+    if depth <= 0:
+        inner = None
+    else:
+        inner = lenient_value(depth - 1)
+    W = rx(WS)
+    comma = A.concat(W, A.lit(','), W)
+    if inner is None:
+        lst = A.concat(A.lit('['), W, A.opt(comma), A.lit(']'))
+        tag = rx(ID)
+    else:
+        lst = A.concat(A.lit('['), W, A.opt(A.concat(inner, A.star(A.concat(comma, inner)))), A.opt(comma), W, A.lit(']'))
+        tag = A.concat(rx(ID), A.opt(A.concat(W, A.lit(':'), W, inner)))
+    dct = A.concat(A.lit('{'), W, A.opt(A.concat(tag, A.star(A.concat(W, tag)))), W, A.lit('}'))
+    return A.union(sc, lst, dct)
+
+
+def lenient_document(depth, val_depth=1):
+    """upper bound of the accepted filters: the reference structure with any blanks between tokens, any identifier as a name
+    and any lenient literal as a value (precision - keywords, required blanks, structure - is the job of document())"""
+    W = rx(WS)
+    p = A.concat(rx(ID), A.star(A.concat(W, A.lit('->'), W, rx(ID))))
+    v = lenient_value(val_depth)
+
+    def filt_(d):
+        alts = [A.concat(A.lit('not'), W, p), A.concat(p, W, A.union(*[A.lit(o) for o in CMPOPS]), W, v), p]
+        if d > 0:
+            alts.append(A.concat(A.lit('('), W, filt_(d - 1), W, A.lit(')')))
+        t = A.union(*alts)
+        g = A.concat(t, A.star(A.concat(W, A.lit('and'), W, t)))
+        return A.concat(g, A.star(A.concat(W, A.lit('or'), W, g)))
+    return A.concat(W, filt_(depth), W)
